@@ -373,7 +373,7 @@ func (g *gen) operatorCase(id string) *EvalCase {
 		}
 	}
 	f := simpleFlag("probe", true, 0, 2)
-	f.Form = pick(r, []string{"pre", "plain", "json"})
+	f.Form = pick(r, handForms)
 	f.Rules = []WFlagRule{{ID: "probe-rule", VR: WVR{V: ip(1), RO: WRollout{Vars: []WWV{}, By: mkRef("", "")}}, Clauses: []WClause{cl}}}
 	c.Flag = f
 	c.Tags = []string{"op:" + op}
@@ -435,7 +435,7 @@ func (g *gen) wideCase(id string) *EvalCase {
 	if r.chance(1, 4) {
 		c.Ctx = WCtx{T: "multi", Cs: []WSCtx{sc, g.sctx("org")}}
 	}
-	n := pick(r, []int{9, 17, 33, 65, 129, 257, 1025})
+	n := pick(r, []int{8, 9, 16, 17, 32, 33, 63, 64, 65, 127, 128, 129, 255, 256, 257, 512, 1024, 1025})
 	pos := pick(r, []int{0, n - 1, n / 2, -1}) // where the deciding element sits; -1 = absent
 	f := simpleFlag("wide", true, 0, 3)
 	f.Form = pick(r, []string{"pre", "plain", "json", "builder"})
@@ -526,7 +526,7 @@ func (g *gen) wideCase(id string) *EvalCase {
 		}
 	default: // segment lists
 		s := simpleSegment("wide-seg")
-		s.Form = pick(r, []string{"pre", "plain", "json"})
+		s.Form = pick(r, handForms)
 		switch r.intn(3) {
 		case 0:
 			s.Inc = keys()
@@ -572,7 +572,7 @@ func (g *gen) manyKindsCase(id string) *EvalCase {
 	c.Ctx = ctx
 	c.Store.Flags, c.Store.Segments = []WFlag{}, []WSegment{}
 	f := simpleFlag("flag", true, 0, 3)
-	f.Form = pick(r, []string{"pre", "plain", "json"})
+	f.Form = pick(r, handForms)
 	order := append([]string{}, kinds...)
 	if r.chance(1, 2) { // revisit the kinds a second time, in another order
 		for i := len(kinds) - 1; i >= 0; i-- {
@@ -588,7 +588,7 @@ func (g *gen) manyKindsCase(id string) *EvalCase {
 		if !r.chance(1, 10) {
 			s.Gen = ip(1 + r.intn(3))
 		}
-		s.Form = pick(r, []string{"pre", "plain", "json"})
+		s.Form = pick(r, handForms)
 		c.Store.Segments = append(c.Store.Segments, s)
 		cl := WClause{Attr: mkRef("", ""), Op: "segmentMatch", Vals: []JV{jStr(s.Key)}}
 		if r.chance(1, 3) && len(f.Rules) > 0 {
@@ -644,7 +644,7 @@ func (g *gen) segSplitCase(id string) *EvalCase {
 	c.Store.Flags = []WFlag{}
 	seg := simpleSegment(pick(r, []string{"seg", "s0", "beta-testers", "сегмент-" + fmt.Sprint(r.intn(50))}))
 	seg.Salt = pick(r, []string{"salty", "salt", "", "s2", strings.Repeat("S", 120)})
-	seg.Form = pick(r, []string{"pre", "plain", "json"})
+	seg.Form = pick(r, handForms)
 	rule := WSegRule{ID: "r0", Clauses: []WClause{}, By: mkRef("", ""), RCK: pick(r, []string{"", "", "user", "org"})}
 	kind := "user"
 	if rule.RCK == "org" {
@@ -686,7 +686,7 @@ func (g *gen) segSplitCase(id string) *EvalCase {
 	}
 	c.Store.Segments = []WSegment{seg}
 	f := simpleFlag("flag", true, 0, 3)
-	f.Form = pick(r, []string{"pre", "plain", "json"})
+	f.Form = pick(r, handForms)
 	f.Rules = []WFlagRule{{ID: "in-segment", Clauses: []WClause{{Attr: mkRef("", ""), Op: "segmentMatch", Vals: []JV{jStr(seg.Key)}, Neg: r.chance(1, 6)}},
 		VR: WVR{V: ip(1), RO: WRollout{Vars: []WWV{}, By: mkRef("", "")}}}}
 	c.Flag = f
@@ -711,7 +711,7 @@ func (g *gen) bucketSplitCase(id string) *EvalCase {
 	}
 	f := simpleFlag(pick(r, []string{"flag", "f", "длинный-ключ-флага-" + fmt.Sprint(r.intn(100))}), true, 0, 4)
 	f.Salt = pick(r, saltPool)
-	f.Form = pick(r, []string{"pre", "plain", "json"})
+	f.Form = pick(r, handForms)
 	ro := WRollout{Vars: []WWV{}, By: mkRef("", ""), CK: pick(r, []string{"", "user", "org", "device"})}
 	if r.chance(1, 3) {
 		ro.Kind = "experiment"
@@ -941,7 +941,65 @@ func genStream(name string, r *rng, id string) *EvalCase {
 	if aliasStreams[name] && aliasEnabled && r.chance(1, 8) {
 		aliasStore(c, r)
 	}
+	if len(c.Store.Flags) > 0 && r.chance(1, 3) {
+		alignPrerequisites(c, r)
+	}
 	return c
+}
+
+// alignPrerequisites rewrites required variations so that prerequisites are often *met*, and in
+// particular met by the value a flag serves when it is off or when its own prerequisites fail:
+// the required index is drawn from what the prerequisite flag can serve (its off variation, its
+// fallthrough, its rules' fixed variations). A prerequisite that is off never satisfies, whatever
+// it serves; a flag that is on and serves its off variation because ITS prerequisite failed does.
+// Sometimes no recorder is installed, and shared prerequisites are referred to twice.
+func alignPrerequisites(c *EvalCase, r *rng) {
+	byKey := map[string]*WFlag{}
+	for i := range c.Store.Flags {
+		f := &c.Store.Flags[i]
+		if _, dup := byKey[f.lookupKey()]; !dup {
+			byKey[f.lookupKey()] = f
+		}
+	}
+	fix := func(f *WFlag, top bool) {
+		for i := range f.Prereqs {
+			p, ok := byKey[f.Prereqs[i].Key]
+			if !ok || r.chance(1, 4) {
+				continue
+			}
+			cands := []int{}
+			if p.Off != nil {
+				cands = append(cands, *p.Off, *p.Off)
+			}
+			if p.FT.V != nil {
+				cands = append(cands, *p.FT.V)
+			}
+			for _, ru := range p.Rules {
+				if ru.VR.V != nil {
+					cands = append(cands, *ru.VR.V)
+				}
+			}
+			if len(cands) > 0 {
+				f.Prereqs[i].V = pick(r, cands)
+			}
+		}
+		if top && len(f.Prereqs) > 0 && len(f.Prereqs) < 4 && r.chance(1, 3) {
+			// the same prerequisite once more, wanting another (or the same) variation (only in the
+			// evaluated flag: repeated at every level of a deep chain the work would double per level)
+			again := f.Prereqs[r.intn(len(f.Prereqs))]
+			if r.bool() {
+				again.V = r.intn(3)
+			}
+			f.Prereqs = append(f.Prereqs, again)
+		}
+	}
+	fix(&c.Flag, true)
+	for i := range c.Store.Flags {
+		fix(&c.Store.Flags[i], false)
+	}
+	if r.chance(1, 3) {
+		c.Opts.Rec = false
+	}
 }
 
 func genStream0(name string, r *rng, id string) *EvalCase {
@@ -953,6 +1011,9 @@ func genStream0(name string, r *rng, id string) *EvalCase {
 	case "operators":
 		g.p = profiles["wellformed"]
 		return g.operatorCase(id)
+	case "bucketedge":
+		g.p = profiles["rollouts"]
+		return g.bucketEdgeCase(id)
 	case "bucketsplit":
 		g.p = profiles["rollouts"]
 		return g.bucketSplitCase(id)
@@ -1013,4 +1074,179 @@ func genStream0(name string, r *rng, id string) *EvalCase {
 	c := g.evalCase(id)
 	c.Tags = append(c.Tags, name)
 	return c
+}
+
+// bucketEdgeCase: bucket values on the edges that sampling does not reach.
+//   - bucket == 1.0 exactly (a mined context key, see edges.go): no cumulative threshold is above
+//     it, so the last bucket's fallback decides; rollouts that reach 100 % before their last
+//     bucket, that never reach it, experiments with an untracked tail, a weighted segment rule of
+//     100 % (which such a context does NOT match);
+//   - a bucket value exactly equal to a cumulative threshold that is the float32 sum of several
+//     terms, chosen among splits on which the running float32 sum differs from the correctly
+//     rounded quotient (where the order and precision of the additions is observable).
+func (g *gen) bucketEdgeCase(id string) *EvalCase {
+	r := g.r
+	c := &EvalCase{ID: id, Kind: "eval", Opts: WOpts{Log: true, Rec: true}}
+	c.Store.Flags, c.Store.Segments = []WFlag{}, []WSegment{}
+	c.Tags = []string{"bucketedge"}
+	if r.bool() {
+		e := pick(r, minedBucketOne)
+		f := simpleFlag("edge", true, 0, 4)
+		f.Form = pick(r, handForms)
+		ro := WRollout{Vars: []WWV{}, By: mkRef("", ""), CK: pick(r, []string{"", "", "user"})}
+		parts := strings.Split(e.Prefix, ".")
+		segKey, segSalt := "", ""
+		if len(parts) == 2 { // "<seed>."
+			var sd int
+			fmt.Sscan(parts[0], &sd)
+			ro.Seed = ip(sd)
+			f.Key, f.Salt = pick(r, []string{"edge", "other"}), pick(r, saltPool)
+		} else {
+			f.Key, f.Salt = parts[0], parts[1]
+			segKey, segSalt = parts[0], parts[1]
+		}
+		sc := WSCtx{Kind: "user", Key: e.Key, Attrs: []WAttr{}}
+		if r.chance(1, 4) {
+			// the mined string as the bucket-by attribute instead of the key
+			sc.Key = pick(r, keyPool)
+			sc.Attrs = []WAttr{{"bk", jStr(e.Key)}}
+			if ro.CK == "" {
+				ro.By = mkRef("lit", "bk")
+			} else {
+				ro.By = mkRef("ref", "/bk")
+			}
+		}
+		c.Ctx = WCtx{T: "single", C: &sc}
+		if r.chance(1, 4) {
+			c.Ctx = WCtx{T: "multi", Cs: []WSCtx{sc, {Kind: "org", Key: "o", Attrs: []WAttr{}}}}
+		}
+		shape := pick(r, [][]int{{100000, 0}, {50000, 50000, 0}, {0, 60000, 40000, 0}, {100000}, {99999, 1}, {1, 99999},
+			{50000, 40000}, {30000, 30000, 30000, 10000}, {0, 0}, {100000, 0, 0}, {33333, 33333, 33334}, {100001}, {60000, 50000}})
+		for i, w := range shape {
+			ro.Vars = append(ro.Vars, WWV{V: i % 4, W: w, U: r.chance(1, 4)})
+		}
+		if r.chance(1, 3) {
+			ro.Kind = "experiment"
+			ro.Vars[len(ro.Vars)-1].U = r.bool()
+		}
+		vr := WVR{RO: ro}
+		if segKey != "" && r.chance(1, 3) {
+			// a weighted segment rule over the same key and salt: 100 % does not include bucket 1.0
+			seg := simpleSegment(segKey)
+			seg.Salt = segSalt
+			seg.Form = pick(r, handForms)
+			seg.Rules = []WSegRule{{ID: "w", Clauses: []WClause{}, Weight: ip(pick(r, []int{100000, 99999, 100001, 0})), By: ro.By, RCK: ro.CK}}
+			c.Store.Segments = append(c.Store.Segments, seg)
+			f.Rules = append(f.Rules, WFlagRule{ID: "seg", VR: WVR{V: ip(3), RO: WRollout{Vars: []WWV{}, By: mkRef("", "")}}, Clauses: segRefRule(segKey).Clauses})
+		}
+		if r.bool() {
+			f.FT = vr
+		} else {
+			f.Rules = append(f.Rules, WFlagRule{ID: "r0", VR: vr, Clauses: []WClause{}, Track: r.chance(1, 3)})
+		}
+		f.TrackFT = r.chance(1, 3)
+		c.Flag = f
+		return c
+	}
+	// a context whose bucket is exactly float32(w)/100000 for some integer w…
+	f := simpleFlag(pick(r, []string{"flag", "f", "edge"}), true, 0, 4)
+	f.Salt = pick(r, saltPool)
+	f.Form = pick(r, handForms)
+	ro := WRollout{Vars: []WWV{}, By: mkRef("", ""), CK: ""}
+	if r.chance(1, 3) {
+		ro.Kind = "experiment"
+	}
+	sc := WSCtx{Kind: "user", Key: "", Attrs: []WAttr{}}
+	c.Ctx = WCtx{T: "single", C: &sc}
+	w, b32 := 0, float32(0)
+	for try := 0; try < 3000; try++ {
+		sc.Key = fmt.Sprintf("user-%d", r.intn(1<<30))
+		b := float32(bucketOf(false, c.Ctx.build(), ro.Kind == "experiment", nil, "", f.Key, ro.By.build(), f.Salt))
+		cand := int(math.Round(float64(b) * 100000))
+		if cand >= 2 && float32(cand)/100000 == b {
+			w, b32 = cand, b
+			break
+		}
+	}
+	// …and a split of w into several terms whose float32 running sum is NOT the correctly rounded
+	// quotient (if one is found among a few hundred), so that the boundary next to the bucket is
+	// sensitive to how the sum is formed
+	n := 2 + r.intn(3)
+	best := []int{w}
+	for try := 0; try < 400 && w >= n; try++ {
+		ws := make([]int, n)
+		rem := w
+		for i := 0; i < n-1; i++ {
+			ws[i] = r.intn(rem + 1)
+			rem -= ws[i]
+		}
+		ws[n-1] = rem
+		var sum float32
+		for _, x := range ws {
+			sum += float32(x) / 100000
+		}
+		best = ws
+		if sum != b32 {
+			break
+		}
+	}
+	k := len(best)
+	rest := 100000 - w
+	for i, x := range best {
+		ro.Vars = append(ro.Vars, WWV{V: i % 4, W: x, U: r.chance(1, 5)})
+	}
+	if rest > 0 {
+		ro.Vars = append(ro.Vars, WWV{V: k % 4, W: rest, U: r.chance(1, 3)})
+	}
+	if r.chance(1, 4) {
+		ro.Vars = append(ro.Vars, WWV{V: (k + 1) % 4, W: 0, U: r.bool()})
+	}
+	vr := WVR{RO: ro}
+	if r.bool() {
+		f.FT = vr
+	} else {
+		f.Rules = []WFlagRule{{ID: "r0", VR: vr, Clauses: []WClause{}, Track: r.chance(1, 3)}}
+	}
+	f.TrackFT = r.chance(1, 3)
+	c.Flag = f
+	return c
+}
+
+
+// widenLists blows one string list of a flag and of a segment up to a length on or next to a
+// power of two (block sizes of buffered readers, pooled scratch slices, unrolled loops).
+func widenLists(r *rng, f *WFlag, s *WSegment) {
+	n := pick(r, []int{63, 64, 65, 127, 128, 129, 255, 256, 257, 384, 512, 1023, 1024, 1025, 2048})
+	keys := make([]string, n)
+	for i := range keys {
+		keys[i] = fmt.Sprintf("w%05d", i)
+	}
+	if f != nil {
+		switch r.intn(3) {
+		case 0:
+			f.Targets = append(f.Targets, WTarget{Vals: keys, V: 0})
+		case 1:
+			f.CTargets = append(f.CTargets, WTarget{CK: "org", Vals: keys, V: 0})
+		default:
+			if len(f.Rules) > 0 && len(f.Rules[0].Clauses) > 0 && f.Rules[0].Clauses[0].Op != "segmentMatch" {
+				vs := make([]JV, n)
+				for i := range vs {
+					vs[i] = jStr(keys[i])
+				}
+				f.Rules[0].Clauses[0].Vals = vs
+			} else {
+				f.Targets = append(f.Targets, WTarget{Vals: keys, V: 0})
+			}
+		}
+	}
+	if s != nil {
+		switch r.intn(3) {
+		case 0:
+			s.Inc = keys
+		case 1:
+			s.Exc = keys
+		default:
+			s.IncC = append(s.IncC, WSegTarget{CK: "org", Vals: keys})
+		}
+	}
 }
